@@ -49,5 +49,21 @@ for sid, meta, viol, obl, probe, und in rows:
     if und[0]: detail += (' / ' if detail else '') + 'deductive check undecided: ' + und[1][:110]
     L.append('| %s | %s | %s | %s | %s | %s |' % (sid, ', '.join(x.replace('src/', '') for x in meta['files_changed']), 'yes (%s)' % ' '.join(viol) if det else '**no**', 'yes' if meta['breaks_property'] in viol else 'no', '+'.join(how) or '-', detail.replace('|', '/')))
 L += ['', '%d of %d seeded changes raise at least one VIOLATION.' % (nd, len(rows)), '']
+# per-round statistics
+stats = {}
+for sid, meta, viol, obl, probe, und in rows:
+    if viol is None:
+        continue
+    r = meta.get('round', 1)
+    st = stats.setdefault(r, {'n': 0, 'det': 0, 'proof': 0, 'probe_only': 0, 'target': 0})
+    st['n'] += 1; st['det'] += bool(viol); st['proof'] += bool(obl); st['probe_only'] += bool(viol) and not obl; st['target'] += meta['breaks_property'] in viol
+L += ['| round | changes | reported | by a named proof obligation | through the replay probe only | target property among those reported |', '|---|---|---|---|---|---|']
+tot = {'n': 0, 'det': 0, 'proof': 0, 'probe_only': 0, 'target': 0}
+for r in sorted(stats):
+    st = stats[r]
+    for k in tot: tot[k] += st[k]
+    L.append('| %s | %d | %d | %d | %d | %d |' % (r, st['n'], st['det'], st['proof'], st['probe_only'], st['target']))
+L.append('| all | %d | %d | %d | %d | %d |' % (tot['n'], tot['det'], tot['proof'], tot['probe_only'], tot['target']))
+L.append('')
 open(os.path.join(ROOT, 'seeded', 'RESULTS.md'), 'w').write('\n'.join(L))
-print('\n'.join(L[-3:]))
+print('\n'.join(L[-14:]))
